@@ -1,0 +1,8 @@
+//go:build verif
+
+package gb28181
+
+// VerifIsTcp reports whether Listen was asked for TCP (start_rtp_pub with is_tcp_flag != 0).
+func (session *PubSession) VerifIsTcp() bool {
+	return session.isTcpFlag
+}
